@@ -51,3 +51,78 @@ def m_object_new(ex, cls, *args, **kwargs):
 
 
 NATIVE_MODELS[object.__new__] = m_object_new
+
+
+# ---------------------------------------------------------------------------
+# text whose only observable content is its UTF-8 encoding
+# ---------------------------------------------------------------------------
+class Utf8Str(str):
+    """A str known by its UTF-8 encoding `b` (a symbolic byte string).  UTF-8 is injective, so two such strings are
+    equal iff their encodings are; `encode('utf-8')` gives the encoding back; `bytes.decode('utf-8')` produces one
+    when the bytes are valid UTF-8 (uninterpreted predicate `utf8_valid`) and raises UnicodeDecodeError otherwise.
+    The methods below are executed symbolically (this module counts as specification code)."""
+
+    def encode(self, encoding='utf-8', errors='strict'):
+        return self.b
+
+    def __eq__(self, other):
+        return isinstance(other, Utf8Str) and self.b == other.b
+
+    def __ne__(self, other):
+        return not (isinstance(other, Utf8Str) and self.b == other.b)
+
+    def __hash__(self):
+        return 0
+
+    def __len__(self):
+        raise NotImplementedError('number of code points of a symbolic string')
+
+
+_utf8_valid = z3.Function('utf8_valid', z3.SeqSort(z3.IntSort()), z3.BoolSort())
+
+
+def utf8_valid_term(ex, b):
+    from .engine import zbytes
+
+    return _utf8_valid(zbytes(ex.as_bytes_value(b)))
+
+
+def m_decode(ex, recv, args, kwargs):
+    from . import models_calls as MC
+    from .engine import mk_bool
+    from .values import OpaqueStr
+
+    enc = args[0] if args else kwargs.get('encoding', 'utf-8')
+    if not isinstance(enc, str) or enc.lower().replace('_', '-') not in ('utf-8', 'utf8') or len(args) > 1 or 'errors' in kwargs:
+        return OpaqueStr()
+    ok = mk_bool(utf8_valid_term(ex, recv))
+    if not ex.spec_mode:
+        if not ex.branch(ok):
+            ex.raise_(UnicodeDecodeError, 'utf-8', b'', 0, 1, 'invalid start byte')
+    return ex.alloc(Obj(Utf8Str, {'b': ex.as_bytes_value(recv)}, ex.cfg.class_model_for(Utf8Str)))
+
+
+import pyvc.models_calls as _MC  # noqa: E402
+
+_MC.DECODE_MODEL = m_decode
+
+
+def q_utf8_valid(ex, args, kwargs):
+    from .engine import mk_bool
+
+    (b,) = args
+    return mk_bool(utf8_valid_term(ex, b))
+
+
+def utf8_valid(b):
+    """is the byte string valid UTF-8 (natively decided by decoding; symbolically an uninterpreted predicate)"""
+    try:
+        bytes(b).decode('utf-8')
+        return True
+    except UnicodeDecodeError:
+        return False
+
+
+from . import seqspec as _SS  # noqa: E402
+
+_SS.SPEC_FORMS[utf8_valid] = q_utf8_valid
